@@ -231,7 +231,7 @@ CHECKS += [
      "note": COMMON_NOTE + " verify_multi_points is proved complete for the time key's verifier key (Lagrange interpolation as coded = remainder modulo the "
              "vanishing polynomial, distinct points); the tree iterator's stack machine is proved equal to the naive foldings for every stream length: complete blocks (length a "
              "multiple of 2^depth) and, with init_stack, every other length (the foldings of the zero-padded stream minus the padding's own items, all zero); "
-             "the stream iterator is proved to yield the last naive folding on complete blocks (every depth >= 1); its zero-padded lengths and the rejection of false multi-point evaluations are established by "
+             "the stream iterator is proved to yield the last naive folding of the zero-padded stream for every length (every depth >= 1); the rejection of false multi-point evaluations is established by "
              "the correspondence and the implementation-level oracle on the property's whole (length, depth) range, not by a theorem; MSM buffer sizes only schedule a commutative sum and are not modelled."},
 ]
 CHECKS += [
